@@ -19,7 +19,7 @@ def one(name):
     res = {}
     for s in SEEDS:
         env = dict(os.environ, VERIF_SEED=str(s))
-        p = subprocess.run([os.path.join(HERE, "tools", "try_patch.sh"), os.path.join(d, "patch.diff"), pid], capture_output=True, text=True, env=env)
+        p = subprocess.run([os.path.join(HERE, "tools", "try_patch.sh"), os.path.join(d, "patch.diff"), pid], capture_output=True, text=True, errors="replace", env=env)
         line = [l for l in p.stdout.splitlines() if l.startswith(pid + ":")]
         if "PATCH-DOES-NOT-APPLY" in p.stdout:
             res[str(s)] = "n/a"
@@ -36,7 +36,7 @@ def one(name):
         alt = {}
         for s in SEEDS:
             env = dict(os.environ, VERIF_SEED=str(s))
-            p = subprocess.run([os.path.join(HERE, "tools", "try_patch.sh"), os.path.join(d, "patch.diff"), "C09"], capture_output=True, text=True, env=env)
+            p = subprocess.run([os.path.join(HERE, "tools", "try_patch.sh"), os.path.join(d, "patch.diff"), "C09"], capture_output=True, text=True, errors="replace", env=env)
             alt[str(s)] = "caught" if "C09: CAUGHT" in p.stdout else "missed"
         meta["seed_sweep_C09"] = " ".join("%s:%s" % (k, v) for k, v in alt.items())
     meta["seed_sweep"] = " ".join("%s:%s" % (k, v) for k, v in res.items())
